@@ -121,6 +121,17 @@ class Execution:
                 self.sems[nxt].release()
 
     def run(self, timeout=20.0):
+        # the baton hand-over (semaphore release + acquire) otherwise waits for the interpreter's
+        # default 5 ms GIL switch interval on every switch; which thread runs is decided by the
+        # semaphores alone, so the interval changes the cost of an execution, not its schedule
+        old = sys.getswitchinterval()
+        sys.setswitchinterval(1e-4)
+        try:
+            return self._run(timeout)
+        finally:
+            sys.setswitchinterval(old)
+
+    def _run(self, timeout):
         threads = [threading.Thread(target=self._run_thread, args=(i,), daemon=True) for i in range(self.n)]
         for t in threads:
             t.start()
@@ -207,11 +218,14 @@ class coop_locks:
         threading.Lock, threading.RLock = self.saved
 
 
-def explore(make_bodies, prefix_dir, bound, check, max_executions=None):
+def explore(make_bodies, prefix_dir, bound, check, max_executions=None, keep=None):
     """Iterative preemption bounding over 2+ threads.
 
     make_bodies() -> list of fresh thread bodies (fresh iterators etc. per execution)
     check(execution) -> None | description of the violation
+    keep(first, preemptions) -> bool, optional: restricts the explored schedules with >= 1
+    preemption to a slice (decided on the FIRST preemption, so a slice is closed under extension);
+    the slices of a partition together cover exactly the schedules of the unsliced exploration
     yields (schedule description, violation) for violating executions; returns counters via dict
     """
     stats = {"executions": 0, "points": 0, "bound_completed": -1}
@@ -268,7 +282,7 @@ def explore(make_bodies, prefix_dir, bound, check, max_executions=None):
                         if to != t:
                             cand = pre + (((t, s), to),)
                             key = (first, frozenset(cand))
-                            if key not in seen:
+                            if key not in seen and (keep is None or keep(first, cand)):
                                 seen.add(key)
                                 nxt.append((first, cand))
         if not stats.get("capped"):
